@@ -52,6 +52,8 @@ let skip_s = function
 (* case: srv.script format (one file, steps open + hover...) followed by the oracle field `D:<hexin>=<hexout|ERR>;...`
    (GBK decodings, by golang.org/x/text directly, of the texts the generator announced in its `G:` items).
    A documentation text that fails the UTF-8 detector and is not in the table makes the case SKIP-ORACLE. *)
+let in_class_docs = ref 0      (* documentation demands stated through the file-level spec (C13_DEBUG=1 prints the count) *)
+let () = at_exit (fun () -> if Sys.getenv_opt "C13_DEBUG" <> None then Printf.eprintf "c13: file-level spec used for %d documentation texts\n" !in_class_docs)
 let () = register "c13.hover" (fun line ->
   let c = parse_srv_case line in
   let table = List.concat_map (fun it ->
@@ -75,11 +77,22 @@ let () = register "c13.hover" (fun line ->
         let r = hover gbk_oracle classify_tok gbk file bs (z_of_int l) (z_of_int col) in
         (* the property's demand: the label, then the attached comment (trailing, else the block above) cleaned up
            line by line, bytes unchanged - only stated when every comment of the file is a `--` line comment *)
-        let sp = hover_with gbk_oracle classify_tok
+        (* for a file of the class of C13_comment_attach_file the demand is read off the declarative table of the
+           file's comment lines (spec_comment on file_table: trailing comment, else the maximal block of comment-only
+           lines ending on the line above); otherwise off the recorded entries (spec_attach) *)
+        let tbl = if file_class gbk_oracle classify_tok bs then Some (file_table gbk_oracle bs) else None in
+        let specdoc =
             (fun es ln ->
-               if not (List.for_all (fun (_, ci) -> ci.ci_short) es && keys_nodup es) then in_fragment := false;
-               if List.exists leading_empty es then addc "leading_empty";
-               get_str_comment (spec_attach es ln)) file bs (z_of_int l) (z_of_int col) in
+               match tbl with
+               | Some t when pure_at t ln = None -> incr in_class_docs; get_str_comment (spec_comment t ln)
+               | _ ->
+                 if not (List.for_all (fun (_, ci) -> ci.ci_short) es && keys_nodup es) then in_fragment := false;
+                 get_str_comment (spec_attach es ln)) in
+        (* the demand: the hovered declaration's OWN comment; the server also shows, for a declaration without comment
+           that is initialised from another name, the comment of that name (first non-empty along the chain) *)
+        let sp = hover_with gbk_oracle classify_tok false specdoc file bs (z_of_int l) (z_of_int col) in
+        let sp_inh = hover_with gbk_oracle classify_tok true specdoc file bs (z_of_int l) (z_of_int col) in
+        if show sp <> show sp_inh then addc "inherited_doc";
         Some (show r, show sp)
       | _ -> None) c.steps in
   let souts = List.map snd outs and outs = List.map fst outs in
